@@ -337,3 +337,17 @@ impl JunosOpts {
         &self.ephemeral_db
     }
 }
+
+#[cfg(feature = "verif")]
+impl IrrdOpts {
+    pub(crate) fn verif_new(host: String, port: u16) -> Self {
+        Self { host, port }
+    }
+}
+
+#[cfg(feature = "verif")]
+impl JunosOpts {
+    pub(crate) fn verif_new(ephemeral_db: String) -> Self {
+        Self { ephemeral_db }
+    }
+}
